@@ -76,10 +76,11 @@ def run_property(pid, tier, seed):
         os.remove(ev_path)
     if not os.path.exists(os.path.join(ROOT, "bin", "govc")):
         subprocess.run([os.path.join(ROOT, "setup.sh")], check=False, stdout=subprocess.DEVNULL)
-    outdir = os.path.join(ROOT, "out", pid)
+    out_root = os.environ.get("VERIF_OUT_DIR") or os.path.join(ROOT, "out")
+    outdir = os.path.join(out_root, pid)
     # obligations behind listed known findings get a short solver budget
-    fast = os.path.join(ROOT, "out", pid + ".fast.txt")
-    os.makedirs(os.path.join(ROOT, "out"), exist_ok=True)
+    fast = os.path.join(out_root, pid + ".fast.txt")
+    os.makedirs(out_root, exist_ok=True)
     with open(fast, "w") as fh:
         for k in load_known():
             if k.get("property") == pid and k.get("status") == "open" and k.get("obligation"):
